@@ -317,6 +317,45 @@ def fresh_install_check():
     return {'kind': 'extras-install-after-first-print', 'why': 'fresh interpreter produced no result'}
 
 
+def twin_classes_check():
+    """different generated classes with one module and qualified name (a class made per schema by make_dataclass / make_class, a cell run
+    again) printed in turn in one interpreter: each instance is printed with the fields of ITS class"""
+    ensure_installed()
+    bad = []
+
+    def dc(fields):
+        c = dataclasses.make_dataclass('Row', fields)
+        c.__module__, c.__qualname__ = __name__, 'Row'
+        return c
+
+    def at(fields):
+        c = attr.make_class('Row', fields)
+        c.__module__, c.__qualname__ = __name__, 'Row'
+        return c
+    variants = [
+        ('dataclass', dc([('id', int), ('name', str, dataclasses.field(default='n'))]), dict(id=1, name='x'), 'sec_extras.Row(id=1, name=\'x\')'),
+        ('dataclass', dc([('id', int), ('score', float, dataclasses.field(default=0.0)), ('hidden', int, dataclasses.field(default=1, repr=False))]),
+         dict(id=2, score=1.5), 'sec_extras.Row(id=2, score=1.5)'),
+        ('dataclass', dc([('name', str, dataclasses.field(default='other default'))]), dict(name='n'), "sec_extras.Row(name='n')"),
+        ('attrs', at({'id': attr.ib(), 'tag': attr.ib(default='t')}), dict(id=3, tag='u'), "sec_extras.Row(id=3, tag='u')"),
+        ('attrs', at({'id': attr.ib(), 'flag': attr.ib(default=False), 'secret': attr.ib(default=0, repr=False)}), dict(id=4, flag=True), 'sec_extras.Row(id=4, flag=True)'),
+    ]
+    order = [0, 1, 0, 2, 1, 3, 4, 3, 0]
+    for k in order:
+        kind, cls, kw, want = variants[k]
+        with warnings.catch_warnings(record=True) as w:
+            warnings.simplefilter('always')
+            try:
+                got = pp.pformat(cls(**kw), width=200)
+            except Exception as e:
+                got = 'EXC:' + type(e).__name__
+        if got != want or w:
+            bad.append({'kind': 'extras-field-selection', 'why': 'classes that share the qualified name sec_extras.Row printed in turn: the %s variant %d is printed as %r, expected %r%s' % (
+                kind, k, got[:150], want, ' (with a warning)' if w else ''), 'class': 'Row variant %d' % k, 'instance_kwargs': repr(kw)})
+            break
+    return bad
+
+
 def extras_section(tier, seed):
     total = 400 if tier == 'quick' else 4000
     step = 25
@@ -332,6 +371,7 @@ def extras_section(tier, seed):
     ff = fresh_install_check()
     if ff:
         fails.append(ff)
+    fails.extend(twin_classes_check())
     stats = {'evaluations': tot, 'distinct_nontrivial': nt, 'class_definitions': total, 'mismatches': len(mism), 'fresh_interpreter_install_order_checked': True,
              'samples': [{'class': gen_class(random.Random(seed * 100003 + 3), 3)}],
              'rule': 'generated dataclass / attrs class definitions (0-4 fields incl. names ctx and fn; no default / default / default_factory; repr flags; frozen / slots; ClassVar with a changed value and InitVar pseudo-fields) '
